@@ -149,6 +149,44 @@ def pizzetti_arms(chk, prog):
             module=GEO, function="ReferenceEllipsoid.equatorial_normal_gravity/polar_normal_gravity", construct="Pizzetti on degenerate arms", line=fe.node.lineno)
 
 
+def ctor_accepts(chk, prog):
+    """CTOR-ACCEPT: the property quantifies over every rotation rate, retrograde bodies (negative w: Venus, Uranus, Pluto in the constants table) included;
+    only w^2 enters the model.  No decision path of the constructor(s) that is determined by a comparison on w alone may end in `raise`; the analysis also fixes the
+    oracle the other obligations use (a > 0, GM > 0, 0 <= f < 1 answered as in the admissible range)."""
+    from sa.lib import enumerate_paths
+    from sa.symeval import Raised
+    cls = prog.cls(GEO + "::ReferenceEllipsoid")
+    f_init = cls.lookup("__init__")
+    a, fv, GM, w = P.sym("a"), P.sym("f"), P.sym("GM"), P.sym("w")
+
+    def run(oracle):
+        it = Interp(prog, oracle=oracle)
+        return it.instantiate(cls, [a, fv, GM, w], {})
+    bad = []
+    n = 0
+    for decisions, res in enumerate_paths(run, ops=("<", ">", "<=", ">="), max_paths=64):
+        n += 1
+        if isinstance(res, Raised):
+            def only_w(c):
+                try:
+                    names = {P.atom(x).name for side in (c.lhs, c.rhs) if hasattr(side, "atoms") for x in side.atoms() if P.atom(x).kind == "sym"}
+                except Exception:
+                    return False
+                return names == {"w"}
+            # the path raises; is the last decision (the one that led into the raise) about w only?
+            if decisions and only_w(decisions[-1][0]):
+                bad.append((decisions[-1], res))
+    site = GEO + "::ReferenceEllipsoid.__init__"
+    if bad:
+        (c, ans), res = bad[0]
+        why = "the constructor raises %s on the path where `%s` is %s: a comparison on the rotation rate alone rejects bodies the property covers (only w^2 enters the model; " \
+              "retrograde rotators have w < 0)" % (res.exc_name, c, ans)
+        chk.record("CTOR-ACCEPT", site, "no rejection decided by the sign of w", verdict="VIOLATION", detail=why)
+        chk.finding("CTOR-ACCEPT", GEO, "ReferenceEllipsoid.__init__", "rejection decided by a comparison on w", why, line=f_init.node.lineno)
+    else:
+        chk.record("CTOR-ACCEPT", site, "none of the %d decision paths of the constructor raises because of a comparison on w alone" % n)
+
+
 def somigliana(chk, prog):
     cls = prog.cls(GEO + "::ReferenceEllipsoid")
     fn = cls.lookup("normal_gravity")
@@ -256,6 +294,7 @@ def canaries(chk, prog):
 
 
 def run(chk, prog, tier):
+    ctor_accepts(chk, prog)
     derived(chk, prog)
     pizzetti(chk, prog)
     pizzetti_arms(chk, prog)
